@@ -287,6 +287,52 @@ Proof.
     rewrite Q2R_qd2. apply norm2_nonneg.
 Qed.
 
+(** ** argsort and the start indices of the closest-parameter search *)
+Lemma qinsert_idx_sound (dq : nat -> Q) (dr : nat -> R) k l :
+  (forall i, 0 <= Q2R (dq i)) -> (forall i, dr i = sqrt (Q2R (dq i))) ->
+  insert_idx dr k l = qinsert_idx dq k l.
+Proof.
+  intros Hn Hd. induction l as [|j t IH]; [reflexivity|]. cbn [insert_idx qinsert_idx]. rewrite !Hd.
+  destruct (Qle_bool (dq k) (dq j)) eqn:E; destruct (Rle_dec (sqrt (Q2R (dq k))) (sqrt (Q2R (dq j)))) as [Hr|Hr].
+  - reflexivity.
+  - exfalso. apply Hr. apply sqrt_le_1_alt. apply Qle_Rle. apply Qle_bool_iff. exact E.
+  - exfalso. apply sqrt_le_0 in Hr; [|apply Hn|apply Hn]. apply Rle_Qle in Hr. apply Qle_bool_iff in Hr. congruence.
+  - f_equal. exact IH.
+Qed.
+
+Lemma qargsort_sound ds : Forall (fun d => 0 <= Q2R d) ds ->
+  argsort (map (fun d => sqrt (Q2R d)) ds) = qargsort ds.
+Proof.
+  intros Hd. unfold argsort, argsort_from, qargsort. rewrite map_length.
+  assert (Hn : forall i, 0 <= Q2R (nth i ds 0%Q)).
+  { intros i. destruct (Nat.lt_ge_cases i (length ds)) as [Hi|Hi].
+    - rewrite Forall_forall in Hd. apply Hd. apply nth_In. exact Hi.
+    - rewrite nth_overflow by exact Hi. rewrite Q2R_zero. lra. }
+  assert (He : forall i, nth i (map (fun d => sqrt (Q2R d)) ds) 0 = sqrt (Q2R (nth i ds 0%Q))).
+  { intros i. rewrite <- (map_nth (fun d => sqrt (Q2R d))). rewrite Q2R_zero, sqrt_0. reflexivity. }
+  induction (seq 0 (length ds)) as [|k l IH]; [reflexivity|]. cbn [fold_right]. rewrite IH.
+  apply qinsert_idx_sound; assumption.
+Qed.
+
+(** the indices of the coarse samples the search starts from, computed over Q, are those of the real-valued model *)
+Lemma qstart_idxs_sound pts q ns :
+  firstn ns (argsort (map (fun p => dist p (q2v q)) (map q2v pts))) = qstart_idxs pts q ns.
+Proof.
+  unfold qstart_idxs. rewrite map_map.
+  assert (Hd : forall a, dist (q2v a) (q2v q) = sqrt (Q2R (qd2 a q)))
+    by (intros a; unfold dist, norm; rewrite Q2R_qd2; reflexivity).
+  rewrite (map_ext _ (fun a => sqrt (Q2R (qd2 a q)))) by exact Hd.
+  rewrite <- (map_map (fun a => qd2 a q) (fun d => sqrt (Q2R d))). f_equal.
+  apply qargsort_sound. apply Forall_forall. intros d Hin. apply in_map_iff in Hin. destruct Hin as (a & <- & _).
+  rewrite Q2R_qd2. apply norm2_nonneg.
+Qed.
+
+Lemma nat_list_eqb_eq l : forall m, nat_list_eqb l m = true -> l = m.
+Proof.
+  induction l as [|a l IH]; intros [|b m] H; simpl in H; try discriminate; [reflexivity|].
+  apply andb_true_iff in H. destruct H as [H1 H2]. apply Nat.eqb_eq in H1. subst. f_equal. apply IH. exact H2.
+Qed.
+
 (** ** the minimiser monitor and the optimality certificates compare distances through enclosures *)
 Lemma qnot_farther_sound tol x q m2 :
   qnot_farther tol x q m2 = true -> dist (q2v x) (q2v q) <= sqrt (Q2R m2) + Q2R tol.
